@@ -43,3 +43,23 @@ package standard
 //@   at call SubmitBeaconCommitteeSubscriptions#1: assert forall k int :: 0 <= k && k < len(arg1) ==> arg1[k] != nil && arg1[k].Slot > currentSlot && in(subscriptionInfo, arg1[k].Slot) && in(subscriptionInfo[arg1[k].Slot], arg1[k].CommitteeIndex) && subFor(arg1[k], subscriptionInfo[arg1[k].Slot][arg1[k].CommitteeIndex], arg1[k].Slot, arg1[k].CommitteeIndex)
 //@   // ... and it is submitted whatever slots of the epoch lie in the past
 //@   exit calls(SubmitBeaconCommitteeSubscriptions) == 1
+
+//@ // ---- C14: a committee in which one of our validators is selected is recorded as aggregating ----
+//@ // (one goroutine per duty, i.e. per slot; the entries of a slot are written by that goroutine only)
+//@ // aggregators[j] says whether the validator at position j of the duty is selected: once a selected validator of a
+//@ // committee has been met, the committee's entry stays marked, whichever validators of the committee follow
+//@ func (*Service).calculateSubscriptionInfoForDuty
+//@   thread
+//@   requires s != nil && sem != nil && wg != nil && subscriptionInfo != nil && subscriptionInfoMutex != nil && duty != nil && accounts != nil
+//@   assumes call getSignaturesAndAggregateData#1 (sg, ag, err): err == nil ==> len(sg) == len(duty.validatorIndices) && len(ag) == len(duty.validatorIndices)
+//@   requires len(duty.committeeIndices) == len(duty.validatorIndices) && len(duty.validatorCommitteeIndices) == len(duty.validatorIndices)
+//@   // assumed of the caller (calculateSubscriptionInfo starts the goroutines with the accounts of the epoch, which
+//@   // Subscribe obtained for exactly the duties' validators, and with a map that only these goroutines fill)
+//@   requires nolocks() && s.attestationAggregator != nil
+//@   requires forall k int :: 0 <= k && k < len(duty.validatorIndices) ==> in(accounts, duty.validatorIndices[k]) && !isnil(accounts[duty.validatorIndices[k]])
+//@   requires forall sl phase0.Slot :: in(subscriptionInfo, sl) ==> subscriptionInfo[sl] != nil && (forall ci phase0.CommitteeIndex :: in(subscriptionInfo[sl], ci) ==> subscriptionInfo[sl][ci] != nil)
+//@   loop 2
+//@     invariant -1 <= rangeindex#2 && rangeindex#2 < len(duty.validatorIndices) && subscriptionInfo != nil && nolocks()
+//@     invariant forall sl phase0.Slot :: in(subscriptionInfo, sl) ==> subscriptionInfo[sl] != nil && (forall ci phase0.CommitteeIndex :: in(subscriptionInfo[sl], ci) ==> subscriptionInfo[sl][ci] != nil)
+//@     invariant forall j int :: 0 <= j && j <= rangeindex#2 ==> in(subscriptionInfo, duty.slot) && in(subscriptionInfo[duty.slot], duty.committeeIndices[j]) && subscriptionInfo[duty.slot][duty.committeeIndices[j]] != nil
+//@     invariant forall j int :: 0 <= j && j <= rangeindex#2 && aggregators[j] ==> subscriptionInfo[duty.slot][duty.committeeIndices[j]].IsAggregator
